@@ -107,6 +107,8 @@ struct TxRec {
     divergent_old: Vec<CommitId>,
     divergent_new: Vec<CommitId>,
     auto_rebased: Vec<CommitId>,
+    /// (old, new) for every rewrite this transaction made, automatic rebases included
+    rewrite_pairs: Vec<(CommitId, CommitId)>,
     refs: Vec<RefWrite>,
     publish_returned: bool,
     description: String,
@@ -533,6 +535,67 @@ fn check_index_c18(shared: &Shared, sim: &Sim, repo: &dyn Repo, ctx: &str, ch: &
     }
 }
 
+/// C22: the changed-path index records exactly the paths that differ between a
+/// commit and the merge of its parents.
+fn check_changed_paths_c22(shared: &Shared, sim: &Sim, repo: &dyn Repo, ctx: &str) {
+    use futures::TryStreamExt as _;
+    let at = cur_seq(sim);
+    let heads: Vec<CommitId> = repo.view().heads().iter().cloned().collect();
+    let g = Graph::load(repo.store(), heads);
+    let mut ids: Vec<CommitId> = g.parents.keys().cloned().collect();
+    ids.sort();
+    let mut indexed = 0u64;
+    for id in ids.iter().take(50) {
+        let Ok(commit) = repo.store().get_commit(id) else { continue };
+        let got: Option<Vec<String>> = match repo.index().changed_paths_in_commit(id).block_on() {
+            Ok(Some(it)) => Some(it.map(|p| p.as_internal_file_string().to_string()).collect()),
+            Ok(None) => None,
+            Err(e) => {
+                shared.model.lock().unwrap().violate("C22", "index_error", "reposim:c22:index_error".into(), format!("{ctx}: changed_paths_in_commit: {e}"), at);
+                return;
+            }
+        };
+        let Some(got) = got else { continue };
+        indexed += 1;
+        // reference: tree diff against the merge of the parents' trees
+        let parents: Vec<Commit> = commit.parent_ids().iter().filter_map(|p| repo.store().get_commit(p).ok()).collect();
+        let parent_tree = if parents.is_empty() {
+            repo.store().empty_merged_tree()
+        } else {
+            match jj_lib::rewrite::merge_commit_trees(repo, &parents).block_on() {
+                Ok(t) => t,
+                Err(_) => continue,
+            }
+        };
+        let diff: Result<Vec<_>, _> = parent_tree
+            .diff_stream(&commit.tree(), &jj_lib::matchers::EverythingMatcher)
+            .map(|e| e.values.map(|_| e.path.as_internal_file_string().to_string()))
+            .try_collect()
+            .block_on();
+        let Ok(mut want) = diff else { continue };
+        want.sort();
+        let mut got_sorted = got.clone();
+        got_sorted.sort();
+        if got_sorted != want {
+            shared.model.lock().unwrap().violate(
+                "C22",
+                "changed_paths_differ_from_tree_diff",
+                "reposim:c22:changed_paths_differ_from_tree_diff".into(),
+                format!("{ctx}: commit {}: index says {:?}, diff against the parents' merged tree says {:?}", short(id), got, want),
+                at,
+            );
+            return;
+        }
+    }
+    let mut model = shared.model.lock().unwrap();
+    if indexed > 0 {
+        model.probe("c22_repo_checked");
+    }
+    if indexed as usize >= ids.len().min(50) && !ids.is_empty() {
+        model.probe("c22_all_visible_commits_indexed");
+    }
+}
+
 /// C17 / C16: what other processes wrote reads back identically through this
 /// process's fresh stores.
 fn check_roundtrip(shared: &Shared, sim: &Sim, loader: &RepoLoader, repo: &dyn Repo, ctx: &str) {
@@ -949,6 +1012,13 @@ impl RepoSim {
             {
                 match store.build_index_at_operation(repo.operation(), repo.store()).block_on() {
                     Ok(_) => {
+                        if shared.cfg.changed_paths {
+                            let max = [1u32, 3, 10, 1000][d.n(4)];
+                            match store.build_changed_path_index_at_operation(repo.op_id(), repo.store(), max, |_| {}).block_on() {
+                                Ok(_) => shared.model.lock().unwrap().probe("changed_path_index_rebuilt"),
+                                Err(e) => return Err(CmdError::Load(format!("index changed-path rebuild: {}", err_chain(&e)))),
+                            }
+                        }
                         shared.model.lock().unwrap().probe("index_rebuilt");
                         let repo2 = loader
                             .load_at(repo.operation())
@@ -1009,6 +1079,7 @@ impl RepoSim {
                     sim.note("note:mut", format!("rewrite {} -> {} (change {})", short(c.id()), short(new.id()), short(c.change_id())));
                     shared.model.lock().unwrap().written_commits.push((new.id().clone(), new.store_commit().as_ref().clone()));
                     rec.rewritten.push((c.id().clone(), new.id().clone(), c.change_id().clone()));
+                    rec.rewrite_pairs.push((c.id().clone(), new.id().clone()));
                 }
                 2 if !non_root.is_empty() => {
                     let c = non_root[d.n(non_root.len())].clone();
@@ -1080,6 +1151,9 @@ impl RepoSim {
                     rec.divergent.push(c.change_id().clone());
                     rec.divergent_old.push(c.id().clone());
                     rec.divergent_new.extend(news.iter().cloned());
+                    for n in &news {
+                        rec.rewrite_pairs.push((c.id().clone(), n.clone()));
+                    }
                 }
                 _ => {
                     // new commit on 1-2 visible parents
@@ -1154,6 +1228,9 @@ impl RepoSim {
         for (old, new) in &auto {
             rec.auto_rebased.push(old.id().clone());
             if let Some(n) = new {
+                rec.rewrite_pairs.push((old.id().clone(), n.id().clone()));
+            }
+            if let Some(n) = new {
                 shared.model.lock().unwrap().written_commits.push((n.id().clone(), n.store_commit().as_ref().clone()));
             }
         }
@@ -1203,6 +1280,9 @@ impl RepoSim {
             check_view_c10(shared, sim, repo, ctx);
             check_index_c18(shared, sim, repo, ctx, &mut nums);
             check_roundtrip(shared, sim, loader, repo, ctx);
+            if shared.cfg.changed_paths {
+                check_changed_paths_c22(shared, sim, repo, ctx);
+            }
         });
     }
 
@@ -1341,7 +1421,7 @@ impl Engine for RepoSim {
     }
 
     fn properties(&self) -> Vec<&'static str> {
-        vec!["C14", "C13", "C10", "C11", "C16", "C17", "C18"]
+        vec!["C14", "C13", "C10", "C11", "C16", "C17", "C18", "C22", "C46"]
     }
 
     fn budget(&self, prop: &str, tier: Tier) -> Budget {
@@ -1482,6 +1562,16 @@ impl Engine for RepoSim {
             tx.repo_mut().rebase_descendants().block_on().unwrap();
             tx.commit("init history").block_on().unwrap();
         }
+        let changed_paths = prop == "C22" || chooser.chance(1, 4);
+        if changed_paths && !heads_focus {
+            let settings = make_settings(8, 0, 0, 2001, "+00:00", "");
+            let loader = RepoLoader::init_from_file_system(&settings, &repo_dir, &jj_lib::default_backend_factories::default_backend_factories()).unwrap();
+            let repo = loader.load_at_head().block_on().unwrap();
+            if let Some(store) = repo.index_store().downcast_ref::<jj_lib::default_index::DefaultIndexStore>() {
+                let max = [1000u32, 1, 2][chooser.choose(3)];
+                store.build_changed_path_index_at_operation(repo.op_id(), repo.store(), max, |_| {}).block_on().unwrap();
+            }
+        }
         drop(init_repo);
         let shared = Arc::new(Shared {
             repo_dir: repo_dir.clone(),
@@ -1492,7 +1582,7 @@ impl Engine for RepoSim {
                 n_bookmarks,
                 skew_ms: skew_ms.clone(),
                 older_op_chance,
-                changed_paths: false,
+                changed_paths: changed_paths && !heads_focus,
             },
             root_op_hex,
         });
@@ -1729,6 +1819,90 @@ impl RepoSim {
         check_index_c18(shared, sim, repo.as_ref(), "quiescent", &mut nums);
         check_roundtrip(shared, sim, &loader, repo.as_ref(), "quiescent");
         self.check_c13(shared, &loader, &repo, &reach);
+        if shared.cfg.changed_paths {
+            check_changed_paths_c22(shared, sim, repo.as_ref(), "quiescent");
+        }
+        self.check_c46(shared, &repo, &reach);
+    }
+
+    /// C46: walking a visible commit's evolution terminates, lists every
+    /// commit it was rewritten from exactly once, each after all of its own
+    /// rewrites.
+    fn check_c46(&self, shared: &Arc<Shared>, repo: &Arc<ReadonlyRepo>, reach: &BTreeSet<String>) {
+        let pairs: Vec<(CommitId, CommitId)> = {
+            let model = shared.model.lock().unwrap();
+            model
+                .txs
+                .iter()
+                .filter(|t| t.op_id.as_ref().is_some_and(|id| reach.contains(&id.hex())))
+                .flat_map(|t| t.rewrite_pairs.iter().cloned())
+                .collect()
+        };
+        let heads: Vec<CommitId> = repo.view().heads().iter().cloned().collect();
+        let g = Graph::load(repo.store(), heads.clone());
+        let mut visible: Vec<CommitId> = g.ancestors(&heads).into_iter().collect();
+        visible.sort();
+        for v in visible.iter().take(40) {
+            let mut listed: Vec<CommitId> = vec![];
+            let mut stream = std::pin::pin!(jj_lib::evolution::walk_predecessors(repo, std::slice::from_ref(v)));
+            let mut steps = 0;
+            loop {
+                steps += 1;
+                if steps > 2000 {
+                    shared.model.lock().unwrap().violate("C46", "evolution_walk_does_not_terminate", "reposim:c46:no_termination".into(), format!("walk_predecessors({}) yielded more than 2000 entries", short(v)), 0);
+                    return;
+                }
+                match stream.next().block_on() {
+                    None => break,
+                    Some(Ok(entry)) => listed.push(entry.commit.id().clone()),
+                    Some(Err(e)) => {
+                        shared.model.lock().unwrap().violate("C46", "evolution_walk_error", "reposim:c46:walk_error".into(), format!("walk_predecessors({}) failed: {e}", short(v)), 0);
+                        return;
+                    }
+                }
+            }
+            // exactly once
+            let uniq: BTreeSet<&CommitId> = listed.iter().collect();
+            if uniq.len() != listed.len() {
+                shared.model.lock().unwrap().violate("C46", "evolution_entry_listed_twice", "reposim:c46:listed_twice".into(), format!("walk_predecessors({}) lists a commit twice: {:?}", short(v), listed.iter().map(short).collect::<Vec<_>>()), 0);
+                return;
+            }
+            // complete: everything the recorded rewrites say it came from
+            let mut want: BTreeSet<CommitId> = BTreeSet::new();
+            let mut stack = vec![v.clone()];
+            while let Some(c) = stack.pop() {
+                for (old, new) in &pairs {
+                    if *new == c && want.insert(old.clone()) {
+                        stack.push(old.clone());
+                    }
+                }
+            }
+            for w in &want {
+                if !listed.contains(w) {
+                    shared.model.lock().unwrap().violate(
+                        "C46",
+                        "evolution_predecessor_missing",
+                        "reposim:c46:predecessor_missing".into(),
+                        format!("walk_predecessors({}) = {:?} does not list {} although a published transaction rewrote it into this line", short(v), listed.iter().map(short).collect::<Vec<_>>(), short(w)),
+                        0,
+                    );
+                    return;
+                }
+            }
+            // order: a commit comes after all commits rewritten from it
+            for (old, new) in &pairs {
+                if let (Some(io), Some(inew)) = (listed.iter().position(|c| c == old), listed.iter().position(|c| c == new))
+                    && io < inew
+                {
+                    shared.model.lock().unwrap().violate("C46", "evolution_order_wrong", "reposim:c46:order".into(), format!("walk_predecessors({}): {} is listed before its rewrite {}", short(v), short(old), short(new)), 0);
+                    return;
+                }
+            }
+            if !want.is_empty() {
+                shared.model.lock().unwrap().probe("c46_walk_with_predecessors_checked");
+            }
+        }
+        shared.model.lock().unwrap().probe("c46_checked");
     }
 
     /// C13: nothing a published transaction did is lost in the reconciled
